@@ -1,11 +1,13 @@
 import PrologVerif.Driver.Common
 import PrologVerif.Driver.C18
 import PrologVerif.Driver.C09
+import PrologVerif.Driver.C20
 open PrologVerif PrologVerif.Driver
 
 def handlers : List (String × Handler) :=
   [ ("c18.hist", C18.handler),
-    ("c09.hist", C09.handler), ("c09.hist.pinned", C09.handlerPinned) ]
+    ("c09.hist", C09.handler), ("c09.hist.pinned", C09.handlerPinned),
+    ("c20.load", C20.handler) ]
 
 partial def loop (h : IO.FS.Stream) (out : IO.FS.Stream) (f : Handler) : IO Unit := do
   let line ← h.getLine
